@@ -1,0 +1,83 @@
+//go:build verif
+
+package object_patch
+
+// Contracts for the verification framework in /verif (comment-only file, build tag `verif`).
+
+// ---- C13: the patch file is validated as a whole and applied once each, in document order ----
+
+// Ghost: the documents decoded from the hook's patch file and the decoding error. The decoders
+// (JSON stream, then YAML stream) are encoding/json and yaml.v3: assumed, compared by the bounded
+// replay only.
+//@ ghost lastSpecs []OperationSpec
+//@ ghost lastDecodeErr error
+//@ trusted func unmarshalFromJSONOrYAML
+//@   modifies lastSpecs, lastDecodeErr
+//@   ghostset lastSpecs := result0
+//@   ghostset lastDecodeErr := result1
+
+// validity of one document (OpenAPI schema v0) and the operation it denotes, as functions of the document
+//@ specfn SpecValid(s OperationSpec) bool
+//@ specfn opOf(s OperationSpec) sdkpkg.PatchCollectorOperation
+//@ trusted func ValidateOperationSpec
+//@   modifies nothing
+//@   ensures dyntype(obj, OperationSpec) ==> (result == nil) == SpecValid(obj.(OperationSpec))
+//@ trusted func NewFromOperationSpec
+//@   modifies nothing
+//@   ensures result == opOf(spec)
+//@ trusted func GetSchema
+//@   modifies nothing
+
+// C13: no error <=> the stream decodes and every document is valid; then the operations are
+// exactly the documents' operations in document order. With any error nothing is to be applied
+// (handleRunHook returns before ExecuteOperations; see its contract).
+//@ func ParseOperations
+//@   prop C13
+//@   modifies lastSpecs, lastDecodeErr
+//@   ensures [decode-error] lastDecodeErr != nil ==> result1 != nil && len(result0) == 0
+//@   ensures [all-or-nothing] lastDecodeErr == nil ==> (result1 == nil) == forall(j, 0, len(lastSpecs), SpecValid(lastSpecs[j]))
+//@   ensures [faithful]     result1 == nil ==> len(result0) == len(lastSpecs) && forall(j, 0, len(result0), result0[j] == opOf(lastSpecs[j]))
+//@   loop 1
+//@     invariant 0 <= iter() && iter() <= len(specs) && lastSpecs == specs && lastDecodeErr == nil
+//@     invariant validationErrors != nil && len(validationErrors.Errors) == 0
+//@     invariant fresh(ops) && len(ops) == iter()
+//@     invariant forall(j, 0, iter(), SpecValid(specs[j]) && ops[j] == opOf(specs[j]))
+
+// Ghost log of the operations handed to the cluster client, in call order.
+//@ ghost nExec int
+//@ ghost execOp map[int]sdkpkg.PatchCollectorOperation
+//@ ghost execErr map[int]error
+//@ ghost nPatchExec int
+//@ trusted func (*ObjectPatcher).ExecuteOperation
+//@   modifies nExec, execOp, execErr
+//@   ghostset nExec := nExec + 1
+//@   ghostset execOp[nExec] := operation
+//@   ghostset execErr[nExec] := result
+//@ package github.com/deckhouse/module-sdk/pkg
+//@ trusted func PatchCollectorOperation.Description
+//@   modifies nothing
+//@ package github.com/pkg/errors
+//@ trusted func WithMessage
+//@   modifies nothing
+//@   ensures (result == nil) == (err == nil)
+//@ package github.com/flant/shell-operator/pkg/kube/object_patch
+
+// C13: every operation is applied exactly once, in slice (= document) order, whatever the
+// outcome of the others; the result is nil iff every application succeeded.
+//@ func (*ObjectPatcher).ExecuteOperations
+//@   prop C13
+//@   modifies nExec, execOp, execErr, nPatchExec
+//@   ghostset nPatchExec := nPatchExec + 1
+//@   let n0 := old(nExec)
+//@   ensures [each-once-in-order] nExec == n0 + len(ops) && forall(k, n0, n0 + len(ops), execOp[k] == ops[k - n0])
+//@   ensures [all-succeeded]      result == nil ==> forall(k, n0, n0 + len(ops), execErr[k] == nil)
+//@   ensures [failure-reported]   forall(k, n0, n0 + len(ops), execErr[k] != nil ==> result != nil)
+//@   loop 1
+//@     invariant 0 <= iter() && iter() <= len(ops) && nExec == n0 + iter()
+//@     invariant forall(k, n0, n0 + iter(), execOp[k] == ops[k - n0])
+//@     invariant applyErrors != nil
+//@     invariant len(applyErrors.Errors) == 0 ==> forall(k, n0, n0 + iter(), execErr[k] == nil)
+//@     invariant forall(k, n0, n0 + iter(), execErr[k] != nil ==> len(applyErrors.Errors) > 0)
+
+//@ trusted func GetPatchStatusOperationsOnHookError
+//@   modifies nothing
